@@ -98,6 +98,15 @@ Fixpoint repr_char_lookup (tbl : list (N * repr)) (r : repr) : option N :=
   end.
 Definition char_of_repr (r : repr) : option N := repr_char_lookup gen_repr_chars r.
 
+(* the renderer's OWN representation -> character match (render_format_options, regenerated into
+   gen_render_repr_chars) *)
+Fixpoint render_repr_lookup (tbl : list (repr * N)) (r : repr) : option N :=
+  match tbl with
+  | [] => None
+  | (r', k) :: tbl' => if repr_eqb r r' then Some k else render_repr_lookup tbl' r
+  end.
+Definition render_char_of_repr (r : repr) : option N := render_repr_lookup gen_render_repr_chars r.
+
 (* ---- consume_u32 ---- *)
 Definition u32_max : N := 4294967295.
 Definition two64 : N := 18446744073709551616.
@@ -264,10 +273,10 @@ Definition render_field (o : sfo) (f : rfield) : list N :=
   | FWidth => match o_min_width o with Some w => dec_digits w | None => [] end
   | FPrecision => match o_precision o with Some p => ch_dot :: dec_digits p | None => [] end
   | FRepr =>
-      (* not written by today's render_format_options; here so that a koto that starts to write
-         the representation regenerates into a model that does *)
+      (* `if let Some(representation) = options.representation { result.push(match representation {..}) }`
+         (written since koto 06483c8; the character table is the renderer's own, regenerated) *)
       match o_repr o with
-      | Some r => match char_of_repr r with Some c => [c] | None => [] end
+      | Some r => match render_char_of_repr r with Some c => [c] | None => [] end
       | None => []
       end
   end.
